@@ -229,3 +229,21 @@ func Inode(fd int) (dev uint64, ino uint64, ok bool) {
 	}
 	return uint64(st.Dev), st.Ino, true
 }
+
+// Unread returns the number of bytes queued for reading on fd (FIONREAD), -1 if unknown.
+func Unread(fd int) int {
+	n, err := unix.IoctlGetInt(fd, unix.TIOCINQ)
+	if err != nil {
+		return -1
+	}
+	return n
+}
+
+// Unsent returns the number of bytes queued in the send buffer of socket fd (TIOCOUTQ), -1 if unknown.
+func Unsent(fd int) int {
+	n, err := unix.IoctlGetInt(fd, unix.TIOCOUTQ)
+	if err != nil {
+		return -1
+	}
+	return n
+}
